@@ -1184,6 +1184,15 @@ def _register_required_structure_hooks(
         else:
             return (int(object_[0]), int(object_[1]))
 
+    def _string_or_string_list_hook(
+        object_: Any, _: type
+    ) -> Optional[Union[str, Sequence[str]]]:
+        if object_ is None:
+            return None
+        if isinstance(object_, str):
+            return object_
+        return [converter.structure(item, str) for item in object_]
+
     def _text_document_filter_hook(
         object_: Any, _: type
     ) -> Union[
@@ -1214,6 +1223,8 @@ def _register_required_structure_hooks(
         lsp_types.NotebookDocumentFilterScheme,
         lsp_types.NotebookDocumentFilterPattern,
     ]:
+        if object_ is None:
+            return None
         if isinstance(object_, str):
             return str(object_)
         elif "notebookType" in object_:
@@ -1255,6 +1266,8 @@ def _register_required_structure_hooks(
             _notebook_filter_hook,
         ),
         (NotebookSelectorItem, _notebook_filter_hook),
+        (Optional[NotebookSelectorItem], _notebook_filter_hook),
+        (Optional[Union[str, Sequence[str]]], _string_or_string_list_hook),
         (
             Union[lsp_types.LSPObject, Sequence["LSPAny"], str, int, float, bool, None],
             _lsp_object_hook,
